@@ -1,5 +1,6 @@
 import EaselModel.Stats.HistRat
 import EaselModel.Stats.HistQuery
+import EaselModel.Stats.HistCens
 import EaselModel.Stats.FitReal
 /-! # C11 — property theorems (statements + glue only; lemmas live in `EaselModel/Stats/*`)
 
@@ -90,6 +91,24 @@ theorem tailmass_query_agrees (h : Hist ℚ) (vs : List ℚ) (acc : Accounts h v
         (k : ℚ) ≤ vs.length * p ∧ (vs.length : ℚ) * p < k + 1 ∧ k ≤ vs.length ∧ h'.isDone = true) :=
   getTailByMass_spec h vs acc hf hs p
 
+/-- `esl_histogram_SetTail(phi)` (after commits fd84f7f, 2487976, 9b72a6e): the threshold actually used is the bin boundary
+    `bmin + k·w ∈ (phi - w, phi]`, `cmin = max(k,0)`, and the censoring agrees with the raw data: `z` = number of accepted values
+    `≤` that threshold, `No = n - z`, `Nc = n`; no read outside the bins. (`SetTailByMass` is covered by the differential run and
+    the monitor only.) -/
+theorem settail_agrees_with_raw_data (h : Hist ℚ) (vs : List ℚ) (acc : Accounts h vs) (phi : ℚ) (hfin : |phi| ≤ dblMaxQ)
+    (hr : -2147483648 ≤ ⌈(phi - h.bmin) / h.w - 1⌉ ∧ ⌈(phi - h.bmin) / h.w - 1⌉ < 2147483647) :
+    ∃ h' mass k, h.setTail phi = .val (.ok, h', mass) ∧ h'.phi = h.bmin + (k : Int) * h.w ∧ h'.phi ≤ phi ∧ phi - h'.phi < h.w ∧
+      h'.cmin = max k 0 ∧ h'.z = vs.countP (fun x => decide (x ≤ h'.phi)) ∧ h'.no = vs.length - h'.z ∧ h'.nc = vs.length ∧
+      h'.obs = h.obs ∧ h'.isDone = true ∧ h'.datasetIs = .virtualCensored :=
+  setTail_spec h vs acc phi hfin hr
+
+/-- `esl_histogram_DeclareCensoring(z, phi)`: eslEINVAL iff `phi` exceeds some observed value; else `Nc = n + z`, `No = n`. -/
+theorem declare_censoring_agrees (h : Hist ℚ) (vs : List ℚ) (acc : Accounts h vs) (hne : vs ≠ []) (z : Int) (hz : 0 ≤ z) (phi : ℚ) :
+    ((∃ v ∈ vs, v < phi) → h.declareCensoring z phi = (.einval, h)) ∧
+    ((∀ v ∈ vs, phi ≤ v) → ∃ h', h.declareCensoring z phi = (.ok, h') ∧ h'.z = z.toNat ∧ h'.nc = vs.length + z.toNat ∧
+        h'.no = vs.length ∧ h'.phi = phi ∧ h'.isDone = true ∧ h'.datasetIs = .trueCensored ∧ h'.obs = h.obs ∧ h'.cmin = h.imin) :=
+  declareCensoring_spec h vs acc hne z hz phi
+
 /-- non-vacuity: `Create(0, 10, 1)` succeeds over ℚ (so `histogram_accounts` has instances) -/
 example : ∃ h : Hist ℚ, Hist.create (0 : ℚ) 10 1 = .val (some h) := by
   have hq : ((10 : ℚ) - 0) / 1 = ((10 : Int) : ℚ) := by norm_num
@@ -159,6 +178,18 @@ theorem gumbel_loc_fits_closed_form (xs : Array ℝ) (z : Int) (phi lam : ℝ) (
     gumbelFitCompleteLoc xs lam = .res .ok #[-(Real.log (gS xs.toList 0 0 lam / xs.size)) / lam] ∧
     gumbelFitCensoredLoc xs z phi lam = .res .ok #[-(Real.log (gS xs.toList z phi lam / xs.size)) / lam] :=
   ⟨gumbelFitCompleteLoc_eq xs lam hn, gumbelFitCensoredLoc_eq xs z phi lam hn⟩
+
+/-- `esl_lognormal_FitComplete` over ℝ (its Kahan summation is the plain sum): `mu` = mean of `log xᵢ` — which for ANY `σ` is the exact
+    maximiser of the log-normal log-likelihood in `μ` (`lognormal_mu_is_maximiser`) — and `sigma² = Σ(log xᵢ - mu)²/(n-1)`, the
+    unbiased variance: `√(n/(n-1))` times the likelihood maximiser `Σ(…)²/n`, by the routine's design (not the ML estimate). -/
+theorem lognormal_fit_closed_form (xs : Array ℝ) :
+    lognormalFitComplete xs = .res .ok #[(xs.toList.map Real.log).sum / xs.size,
+      Real.sqrt ((xs.toList.map (fun x => (Real.log x - (xs.toList.map Real.log).sum / xs.size) * (Real.log x - (xs.toList.map Real.log).sum / xs.size))).sum / ((xs.size : ℝ) - 1))] :=
+  lognormalFitComplete_eq xs
+
+theorem lognormal_mu_is_maximiser (a : List ℝ) (hn : 0 < a.length) (mu' : ℝ) :
+    (a.map (fun x => (x - a.sum / a.length) * (x - a.sum / a.length))).sum ≤ (a.map (fun x => (x - mu') * (x - mu'))).sum :=
+  mean_minimises_squares a hn mu'
 
 /-- termination: Newton (100) and bisection (100) are capped in the code and total in the model; the one uncapped loop
     (`while (fx > 0.) right *= 2.`) ends within 2200 rounds whenever `right > 0` and `right·2²¹⁹⁹ > 1000` (every positive binary64),
